@@ -7,7 +7,7 @@ machinery therefore never sees a stale result.  VERIF_NO_CACHE=1 disables the st
 """
 import os
 import time
-from . import layer_t, layer_i, corpus
+from . import layer_t, layer_i, layer_r, layer_g, corpus
 from .common import tree_hash, cache_get, cache_put, Scratch, REPRS, log
 
 
@@ -74,4 +74,32 @@ def get_i(tier, seed):
     r["wall_s"] = time.time() - t0
     r["cache_hit"] = False
     cache_put("layer_i", key, r)
+    return r
+
+
+def get_r(tier="quick"):
+    key = tree_hash(("R",))
+    r = cache_get("layer_r", key)
+    if r is not None:
+        r["cache_hit"] = True
+        return r
+    with Scratch("vf-r-") as sc:
+        r = layer_r.run_layer_r(sc)
+    r["cache_hit"] = False
+    cache_put("layer_r", key, r)
+    return r
+
+
+def get_g(tier="quick"):
+    key = tree_hash(("G",))
+    r = cache_get("layer_g", key)
+    if r is not None:
+        r["cache_hit"] = True
+        return r
+    t0 = time.time()
+    with Scratch("vf-g-") as sc:
+        r = layer_g.run_layer_g(sc)
+    r["wall_s"] = time.time() - t0
+    r["cache_hit"] = False
+    cache_put("layer_g", key, r)
     return r
